@@ -28,7 +28,7 @@ theorem specMatmul_shaped (a b : Tensor S) (ta tb : Bool) (c : Option (Tensor S)
   simp [specMatmul, Tensor.ofFn]
 
 section add
-variable [AddLaws S] [MulLaws S]
+variable [AddLaws S] [MulLaws S] [CommLaws S]
 
 theorem sumRange_add (k : Nat) (f g : Nat → S) : sumRange k (fun t => f t + g t) = sumRange k f + sumRange k g :=
   sumList_map_add f g (List.range k)
@@ -76,6 +76,50 @@ theorem specMatmul_add_right (a x y : Tensor S) (ta tx : Bool) (hd : x.dims = y.
   simp only [tadd] at this
   rw [this, MulLaws.left_distrib]
 
+theorem sumRange_smul (α : S) (k : Nat) (f : Nat → S) : sumRange k (fun t => α * f t) = α * sumRange k f :=
+  sumList_smul α f (List.range k)
+
+theorem zero_add_smul (α A : S) : zero + α * A = α * (zero + A) := by
+  rw [AddLaws.zero_add, AddLaws.zero_add]
+
+theorem specMatmul_smul_left (α : S) (x b : Tensor S) (tx tb : Bool) :
+    specMatmul (tsmul α x) tx b tb none = tsmul α (specMatmul x tx b tb none) := by
+  have e1 : (tsmul α x).dims = x.dims := rfl
+  simp only [specMatmul, Tensor.ofFn, e1]
+  simp only [tsmul, List.map_map]
+  congr 1
+  apply List.map_congr_left
+  intro n _
+  simp only [Function.comp]
+  rw [← zero_add_smul, ← sumRange_smul]
+  congr 1
+  simp only [sumRange]
+  congr 1
+  apply List.map_congr_left
+  intro t _
+  have := tsmul_get α x
+  simp only [tsmul] at this
+  rw [this, CommLaws.mul_assoc]
+
+theorem specMatmul_smul_right (α : S) (a x : Tensor S) (ta tx : Bool) :
+    specMatmul a ta (tsmul α x) tx none = tsmul α (specMatmul a ta x tx none) := by
+  have e1 : (tsmul α x).dims = x.dims := rfl
+  simp only [specMatmul, Tensor.ofFn, e1]
+  simp only [tsmul, List.map_map]
+  congr 1
+  apply List.map_congr_left
+  intro n _
+  simp only [Function.comp]
+  rw [← zero_add_smul, ← sumRange_smul]
+  congr 1
+  simp only [sumRange]
+  congr 1
+  apply List.map_congr_left
+  intro t _
+  have := tsmul_get α x
+  simp only [tsmul] at this
+  rw [this, ← CommLaws.mul_assoc, CommLaws.mul_comm _ α, CommLaws.mul_assoc]
+
 theorem pos_append2 {l : List Nat} {p q : Nat} (hl : ∀ d ∈ l, 1 ≤ d) (hp : 1 ≤ p) (hq : 1 ≤ q) :
     ∀ d ∈ l ++ [p, q], 1 ≤ d := by
   intro d hd
@@ -92,7 +136,7 @@ theorem linEntry_matmul_left (b : Tensor S) (tx tb : Bool) (lx lb : List Nat) (x
     (hfit : Fits kd (bdims lx lb ++ [if tx then x2 else x1, if tb then b1 else b2]) = true) :
     LinEntry (fun x => matmul x tx b tb none) (lx ++ [x1, x2]) kd := by
   have hposB : ∀ d ∈ lb ++ [b1, b2], 1 ≤ d := by rw [← hdb]; exact hwb.1
-  refine ⟨_, fun x => specMatmul x tx b tb none, ?_, hkd, hfit, ?_, ?_⟩
+  refine ⟨_, fun x => specMatmul x tx b tb none, ?_, hkd, hfit, ?_, ?_, fun α x _ => specMatmul_smul_left α x b tx tb⟩
   · refine pos_append2 (bdims_pos lx lb (fun d hd => hposX d (by simp [hd])) (fun d hd => hposB d (by simp [hd]))) ?_ ?_
     · cases tx
       · exact hposX x1 (by simp)
@@ -114,7 +158,7 @@ theorem linEntry_matmul_right (a : Tensor S) (ta tx : Bool) (la lx : List Nat) (
     (hfit : Fits kd (bdims la lx ++ [if ta then a2 else a1, if tx then x1 else x2]) = true) :
     LinEntry (fun x => matmul a ta x tx none) (lx ++ [x1, x2]) kd := by
   have hposA : ∀ d ∈ la ++ [a1, a2], 1 ≤ d := by rw [← hda]; exact hwa.1
-  refine ⟨_, fun x => specMatmul a ta x tx none, ?_, hkd, hfit, ?_, ?_⟩
+  refine ⟨_, fun x => specMatmul a ta x tx none, ?_, hkd, hfit, ?_, ?_, fun α x _ => specMatmul_smul_right α a x ta tx⟩
   · refine pos_append2 (bdims_pos la lx (fun d hd => hposA d (by simp [hd])) (fun d hd => hposX d (by simp [hd]))) ?_ ?_
     · cases ta
       · exact hposA a1 (by simp)
@@ -156,13 +200,13 @@ theorem Compat_bdims_l' (a b : List Nat) (ha : ∀ d ∈ a, 1 ≤ d) (hb : ∀ d
     Compat (bdims a b) a = true := by rw [Compat_comm]; exact Compat_bdims_left a b ha hb h
 
 /-- **the closure of a `matmul` node** with operands of rank ≥ 2 -/
-theorem vjp_lin_matmul [AddLaws S] [MulLaws S] (ta tb : Bool) (a b cc self : Tensor S) (f0 f1 f2 : Bool)
+theorem vjp_lin_matmul [AddLaws S] [MulLaws S] [CommLaws S] (ta tb : Bool) (a b cc self : Tensor S) (f0 f1 f2 : Bool)
     (la lb : List Nat) (a1 a2 b1 b2 : Nat)
     (hda : a.dims = la ++ [a1, a2]) (hdb : b.dims = lb ++ [b1, b2]) (hwa : a.WF) (hwb : b.WF)
     (hc : Compat la lb = true) (hinner : (if ta then a1 else a2) = (if tb then b2 else b1))
     (hcc : ∀ d ∈ cc.dims, 1 ≤ d)
     (hfc : Fits cc.dims (bdims la lb ++ [if ta then a2 else a1, if tb then b1 else b2]) = true) :
-    VjpLin (vjp (.matmul ta tb) [a, b, cc] self) [f0, f1, f2]
+    VjpLinear (vjp (.matmul ta tb) [a, b, cc] self) [f0, f1, f2]
       (bdims la lb ++ [if ta then a2 else a1, if tb then b1 else b2]) [a.dims, b.dims, cc.dims] := by
   have hposA : ∀ d ∈ la ++ [a1, a2], 1 ≤ d := by rw [← hda]; exact hwa.1
   have hposB : ∀ d ∈ lb ++ [b1, b2], 1 ≤ d := by rw [← hdb]; exact hwb.1
@@ -224,16 +268,27 @@ theorem vjp_lin_matmul [AddLaws S] [MulLaws S] (ta tb : Bool) (a b cc self : Ten
       · rw [bdims_absorb_l']
         simp only [if_true]
         rw [hinner]; exact hfb
-  apply vjpLin_of3
-  intro x y hx hy
-  obtain ⟨o1, o2, o3, a1', a2', a3', ea⟩ := whenT_lin f0 _ _ a.dims e0 x y hx hy
-  obtain ⟨p1, p2, p3, b1', b2', b3', eb⟩ := whenT_lin f1 _ _ b.dims e1 x y hx hy
-  refine ⟨o1, o2, o3, p1, p2, p3, _, _, _, ?_, ?_, ?_, ea, eb, pass_lin f2 _ _ hposN hcc hfc x y hx hy⟩
-  · simp only [vjp, kid, flag, getR, List.getElem?_cons_zero, List.getElem?_cons_succ, pure, Except.pure, bind,
-      Except.bind, a1', b1']
-  · simp only [vjp, kid, flag, getR, List.getElem?_cons_zero, List.getElem?_cons_succ, pure, Except.pure, bind,
-      Except.bind, a2', b2']
-  · simp only [vjp, kid, flag, getR, List.getElem?_cons_zero, List.getElem?_cons_succ, pure, Except.pure, bind,
-      Except.bind, a3', b3']
+  constructor
+  · apply vjpLin_of3
+    intro x y hx hy
+    obtain ⟨o1, o2, o3, a1', a2', a3', ea⟩ := whenT_lin f0 _ _ a.dims e0 x y hx hy
+    obtain ⟨p1, p2, p3, b1', b2', b3', eb⟩ := whenT_lin f1 _ _ b.dims e1 x y hx hy
+    refine ⟨o1, o2, o3, p1, p2, p3, _, _, _, ?_, ?_, ?_, ea, eb, pass_lin f2 _ _ hposN hcc hfc x y hx hy⟩
+    · simp only [vjp, kid, flag, getR, List.getElem?_cons_zero, List.getElem?_cons_succ, pure, Except.pure, bind,
+        Except.bind, a1', b1']
+    · simp only [vjp, kid, flag, getR, List.getElem?_cons_zero, List.getElem?_cons_succ, pure, Except.pure, bind,
+        Except.bind, a2', b2']
+    · simp only [vjp, kid, flag, getR, List.getElem?_cons_zero, List.getElem?_cons_succ, pure, Except.pure, bind,
+        Except.bind, a3', b3']
+  · intro α
+    apply vjpHom_of3
+    intro x hx
+    obtain ⟨o1, o3, a1', a3', ea⟩ := whenT_hom α f0 _ _ a.dims e0 x hx
+    obtain ⟨p1, p3, b1', b3', eb⟩ := whenT_hom α f1 _ _ b.dims e1 x hx
+    refine ⟨o1, o3, p1, p3, _, _, ?_, ?_, ea, eb, pass_hom α f2 _ _ hposN hcc hfc x hx⟩
+    · simp only [vjp, kid, flag, getR, List.getElem?_cons_zero, List.getElem?_cons_succ, pure, Except.pure, bind,
+        Except.bind, a1', b1']
+    · simp only [vjp, kid, flag, getR, List.getElem?_cons_zero, List.getElem?_cons_succ, pure, Except.pure, bind,
+        Except.bind, a3', b3']
 
 end Corgi
